@@ -33,8 +33,15 @@ import (
 
 // c06Specs: C04's spaces without SuppressError/Single (a grammar that suppresses its errors on purpose cannot be
 // held to "the expectation is one that really failed there").
+// fullEnd: the full alphabet plus parser.End() as a leaf (its error is the one non-NotFound error of these grammars)
+var fullEnd = func() gram.Alphabet { a := gram.Full; a.Name = "full+end"; a.End = true; return a }()
+
 func c06Specs(tier string) []spaceSpec {
-	var out []spaceSpec
+	max := 4
+	if tier == "thorough" {
+		max = 5
+	}
+	out := []spaceSpec{{sp: &gram.Space{Name: "full+end-1nt", Alpha: fullEnd, NNT: 1, Min: 2, Max: max}, maxLen: 3, alpha: ab}}
 	for _, s := range c04Specs(tier) {
 		if s.sp.Alpha.Name != fullAll.Name {
 			out = append(out, s)
@@ -100,6 +107,8 @@ func c06Grammar(res *explore.Result, g *gram.Grammar, inputs [][]byte, verbose b
 					ch = m
 				}
 				failed[attempt{strconv.Quote(string(rune(ch))), int(pos) - impl.Base}] = true
+			case gram.End:
+				failed[attempt{"the end of input", int(pos) - impl.Base}] = true
 			case gram.Any, gram.Choice:
 				if gv.Named {
 					failed[attempt{"alt" + strconv.Itoa(e.ID), int(pos) - impl.Base}] = true
